@@ -506,7 +506,24 @@ let samp_case toks =
       m ^ " # " ^ verdict
   | _ -> "badcase"
 
-let dispatch : (string * (string list -> string)) list ref = ref [ ("ops", ops_case); ("ntt", ntt_case); ("expr", expr_case); ("crt", crt_case); ("set", set_case); ("serial", serial_case); ("rb", rb_case); ("prng", prng_case); ("samp", samp_case) ]
+(* ------------------------------------------------------------------ C10/C11: Gaussian sampler over a dumped barrier table *)
+(* line: gn <depth> <wp> <vmin> <L> <rlen> <wbytes> B <hex,hex,...> T <hex tape>   ->  "v v v | oob=<0/1> starts=a,b,c" *)
+let gauss_case toks =
+  match toks with
+  | [ "gn"; depth; wp; vmin; l; rlen; wbytes; "B"; bs; "T"; hex ] ->
+      let wb = int_of_string wbytes in
+      let wpn = int_of_string wp in
+      let words_of_hex_be h = List.init (String.length h / (2 * wb)) (fun i -> czi (int_of_string ("0x" ^ String.sub h (2 * wb * i) (2 * wb)))) in
+      let barriers = List.map words_of_hex_be (String.split_on_char ',' bs) in
+      let bytes = if hex = "-" then [||] else Array.init (String.length hex / 2) (fun i -> int_of_string ("0x" ^ String.sub hex (2 * i) 2)) in
+      let nwords = Array.length bytes / wb in
+      let tape = List.init nwords (fun i -> if wb = 1 then czi bytes.(i) else czi (bytes.(2 * i) + 256 * bytes.(2 * i + 1))) in
+      let (((outs, starts), oob), _) = M.get_noise (cz vmin) barriers (nat_of_int wpn) (nat_of_int (int_of_string depth)) (nat_of_int (int_of_string l)) (nat_of_int (int_of_string rlen)) tape in
+      let r = Printf.sprintf "%s | oob=%d starts=%s" (strl outs) (if oob then 1 else 0) (String.concat "," (List.map (fun n -> string_of_int (int_of_nat n)) starts)) in
+      r ^ " # " ^ r
+  | _ -> "badcase"
+
+let dispatch : (string * (string list -> string)) list ref = ref [ ("ops", ops_case); ("ntt", ntt_case); ("expr", expr_case); ("crt", crt_case); ("set", set_case); ("serial", serial_case); ("rb", rb_case); ("prng", prng_case); ("samp", samp_case); ("gauss", gauss_case) ]
 
 let () =
   let family = if Array.length Sys.argv > 1 then Sys.argv.(1) else "ops" in
